@@ -273,10 +273,22 @@ def r1_call_sites(ctx):
                     if isinstance(x, ast.Attribute) and x.attr == "bin" and dotted(x.value) == "self" and fn.cls is not None:
                         storing.add(fn.cls.name)
     r.note(f"C16.R1: {sites} bins() call sites outside util.bins")
-    unknown = storing - set(STORING)
+    # an assignment in a shared base class (or a helper method of it) stores the bin of every concrete class deriving from it
+    covered = set()
+    unknown = set()
+    for name in storing:
+        if name in STORING:
+            covered.add(name)
+            continue
+        desc = {c.name for m in repo.modules.values() for c in m.classes.values()
+                if c.name in STORING and any(k.name == name for k in repo.mro(c)[1:])}
+        if desc:
+            covered |= desc
+        else:
+            unknown.add(name)
     if unknown:
         r.error(f"C16.R1: classes {sorted(unknown)} assign self.bin and have no builder in the checker: the stored-bin rule does not cover them")
-    r.floor("C16.R1", "classes that store a bin", len(storing & set(STORING)), 6)
+    r.floor("C16.R1", "classes that store a bin", len(covered), 6)
     from ..par import pmap
     specs = [(cls, lay) for cls in sorted(STORING) for lay in R1_LAYOUTS if not (cls == "VariantInterval" and len(lay) > 1)]
     results = pmap(_runner(repo, _stored_case), specs, min_items=4)
